@@ -11,6 +11,7 @@ mod d_c09;
 mod d_c10;
 mod d_c14;
 mod d_c17;
+mod d_c05;
 mod d_c18;
 mod closure;
 mod d_c19;
